@@ -237,6 +237,14 @@ def run(ctx):
                 and any(n[0] == 'agg' and n[2] == 'MsvAvTimestamp' for n in walk(a[4])) and has_call(a[5], 'nla::ntlm::get_payload_field')
         ctx.check(good, 'R15.4', 'response:args', 'compute_response_v2(key_nt, key_lm, ServerChallenge, random client challenge, MsvAvTimestamp, target info)', rc.where(),
                   'read_challenge_message passes the wrong values to compute_response_v2')
+        if len(cr) == 1:
+            # the 8-byte timestamp is the server's, or the message is refused: no default stands in for a missing MsvAvTimestamp (the NTLMv2 client
+            # challenge has a fixed 28-byte header; an empty timestamp shifts every field after it)
+            dflt = [c[1].rsplit('::', 1)[-1] for c in calls_in(resolve(st, cr[0][2][4]))
+                    if c[0] in ('call', 'via') and re.search(r'::(unwrap_or_default|unwrap_or|unwrap_or_else|or_default|or_insert\w*)$|Default>::default$|Vec::<T>::new$', c[1])]
+            ctx.check(not dflt, 'R15.4', 'response:timestamp', 'the timestamp handed to compute_response_v2 is the MsvAvTimestamp value itself (absent -> error)', rc.where(),
+                      'read_challenge_message substitutes a default (%s) for a missing MsvAvTimestamp: the AUTHENTICATE token is then built with a client challenge '
+                      'whose timestamp field is not 8 bytes long (malformed NTLMv2 response)' % sorted(set(dflt)))
         kx = path_calls(st, 'nla::ntlm::rc4k')
         good = len(kx) == 1 and has_call(resolve(st, kx[0][2][0]), 'nla::ntlm::kx_key_v2') and any(n[0] == 'field' and n[2] == 'exported_session_key' for n in walk(resolve(st, kx[0][2][1])))
         ctx.check(good, 'R15.4', 'kx', 'EncryptedRandomSessionKey = RC4K(KeyExchangeKey, ExportedSessionKey)', rc.where(),
